@@ -24,8 +24,10 @@ Definition sites : list site := [
   mk_site "VisitWorkflowPre" "checkStrings" "i.Options" 0 (KL "") [];
   mk_site "VisitWorkflowPre" "checkStrings" "e.Types" 1 (KL "") [];
   mk_site "VisitWorkflowPre" "checkString" "i.Description" 1 (KL "") [];
+  mk_site "VisitWorkflowPre" "checkBool" "i.Required" 1 (KL "") [];
   mk_site "VisitWorkflowPre" "checkString" "i.Default" 1 (KL "on.workflow_call.inputs.<inputs_id>.default") [];
   mk_site "VisitWorkflowPre" "checkString" "s.Description" 0 (KL "") [];
+  mk_site "VisitWorkflowPre" "checkBool" "s.Required" 0 (KL "") [];
   mk_site "VisitWorkflowPre" "checkString" "o.Description" 0 (KL "") [];
   mk_site "VisitWorkflowPre" "checkString" "n.RunName" 0 (KL "run-name") [];
   mk_site "VisitWorkflowPre" "checkEnv" "n.Env" 0 (KL "env") [];
